@@ -8,6 +8,14 @@ from wesym.contracts import crypto, seqchan
 PKGS = [MOD + '/pkg/secretstore', MOD + '/pkg/cryptoutil', MOD + '/pkg/protocoltypes', MOD + '/pkg/errcode', MOD + '/pkg/ipfsutil', 'encoding/binary']
 
 
+import functools
+from wesym import coop
+
+
+def _coop_inst(preemptions, I):
+    coop.install(I, preemptions=preemptions)
+
+
 def main():
     t = tier()
     chk = Check('C01', PKGS, 'pkg/secretstore',
@@ -27,6 +35,19 @@ def main():
     jobs.append(Job(P + 'VerifC01OtherGroup', (), cfg=cfg))
     jobs.append(Job(P + 'VerifC01Witness', (), witness=True, cfg=cfg))
     res = chk.run_jobs(jobs)
+    chk.cleanup()
+    # the positive clause under concurrent sends of one device (symbolic scheduler, DESIGN 4b): every envelope sealed
+    # while another SealEnvelope is in flight still opens at the receiver to its own payload and counter
+    import c02
+    chk2 = Check('C01', PKGS, 'pkg/secretstore',
+                 ['secretstore/zz_verif_env.go', 'secretstore/zz_verif_rand.go', 'C09/zz_verif_c09_coop.go'],
+                 installers=[crypto.install, crypto.install_proto, c02.install], init_pkgs=[MOD + '/pkg/errcode'], prelude_pkgname='secretstore')
+    chk2.load([P + 'VerifC09Coop'])
+    K = 6
+    pre = 1 if t == 'quick' else 2
+    res += chk2.run_jobs([Job(P + 'VerifC09Coop', (2, 1, 1), cfg=cfg, installers=[functools.partial(_coop_inst, pre)], shard=(i, K), max_paths=400000,
+                              label='VerifC09Coop(2,1,1)[pre<=%d]#%d/%d' % (pre, i, K)) for i in range(K)])
+    chk = chk2
     finish(chk, res, t,
            explanation='Symbolic execution of the real seal/open code of pkg/secretstore (SealEnvelope, sealEnvelope, sealPayload, '
                        'deriveNextKeys, uint64AsNonce, OpenEnvelopeHeaders, OpenEnvelopePayload, openPayload*, postDecryptActions, '
@@ -34,7 +55,7 @@ def main():
                        'adversarial envelope are free terms of any length, the sender counter is a free 64-bit value; EUF-CMA is assumed '
                        'only for the keys a harness declares honest and INT-CTXT only for keys it declares secret, so an insider is '
                        'literally "knows everything but the device signing key".',
-           bounds={'window_N': 2, 'honest_messages': '<= 2', 'group_types': 'account, contact, multi-member', 'payload': 'opaque, any length',
+           bounds={'concurrent_sends': '2 goroutines x 1 SealEnvelope on one store and group under the symbolic scheduler (preemption bound %d), all envelopes then opened at the receiver' % pre, 'window_N': 2, 'honest_messages': '<= 2', 'group_types': 'account, contact, multi-member', 'payload': 'opaque, any length',
                    'outside': 'primitives themselves; protobuf wire malleability (typed parse); counter wrap at 2^64; statistical properties'},
            assumptions=['Dolev-Yao term algebra: constructors injective and disjoint', 'EUF-CMA for keys declared honest', 'INT-CTXT for keys declared secret',
                         'datastore = array Term->Option Term; batch commit atomic'],
